@@ -21,7 +21,7 @@ RULE = ("case = one value (string over the small alphabet, grammar value, digit 
         "numeric/non-numeric keys x @string; non-trivial = the trimmed value starts or ends with a delimiter, or is an integer value in a numeric field; "
         "distinct = distinct value")
 ASSUMPTIONS = ["numeric field keys are the lower-case names listed by the middleware (year, month, volume, number, pages, edition, chapter, issue)"]
-MIN = {"second_removal_pass": (5000, 50000), "mixed_records": (1000, 20000), "remove_rule": (10000, 100000), "restore_law": (50000, 500000), "reparse": (5000, 50000), "integer_rule": (500, 2000), "no_raise": (50000, 500000)}
+MIN = {"restore_law_through_middle_step": (20000, 200000), "second_removal_pass": (5000, 50000), "mixed_records": (1000, 20000), "remove_rule": (10000, 100000), "restore_law": (50000, 500000), "reparse": (5000, 50000), "integer_rule": (500, 2000), "no_raise": (50000, 500000)}
 
 ALPHA = ["{", "}", '"', "a", " ", "#", "\\"]
 OPTS = [(d, reuse, ei) for d in ("{", '"') for reuse in (False, True) for ei in (False, True)]
@@ -48,6 +48,15 @@ def cases(tier, seed, shard, nshards):
         if idx % nshards == shard:
             yield {"k": "digits", "v": v}
         idx += 1
+    # contents that OTHER shipped middlewares care about (months, numbers in and out of the month range, macro names, names,
+    # URLs, LaTeX), in every enclosing: what matters for the restore law with a step in between (seed C10-l)
+    semantic = ["13", "0", "2019", "1", "12", "007", "jan", "January", "JANUARY", "dec", "s", "k", "Doe, John and Roe, Jane", "a and b", "http://x.y/z", "\\'e", "caf\u00e9", "$x$", "a & b",
+                "13 ", "may", "May", "sept", "1.0", "²"]
+    for c in semantic:
+        for enc in ("{%s}", '"%s"', "%s", "{{%s}}", '"{%s}"', "{ %s }"):
+            if idx % nshards == shard:
+                yield {"k": "str", "v": enc % c, "sem": True}
+            idx += 1
     r = rng_for(seed, shard, "c10")
     for _ in range(tier_pick(tier, 16000, 1000000) // nshards):
         o = grammar.Opts(nest=r.choice([1, 3]))
@@ -163,6 +172,53 @@ def run(mw, lib):
     return sp.escape(lambda: mw.transform(lib))
 
 
+def _middles(inplace):
+    from bibtexparser import middlewares as M
+    return [lambda: M.MonthIntMiddleware(allow_inplace_modification=inplace), lambda: M.MonthAbbreviationMiddleware(allow_inplace_modification=inplace),
+            lambda: M.MonthLongStringMiddleware(allow_inplace_modification=inplace), lambda: M.SortFieldsAlphabeticallyMiddleware(allow_inplace_modification=inplace),
+            lambda: M.SortFieldsCustomMiddleware(order=("year", "month"), allow_inplace_modification=inplace), lambda: M.ResolveStringReferencesMiddleware(allow_inplace_modification=inplace),
+            lambda: M.LatexDecodingMiddleware(allow_inplace_modification=inplace), lambda: M.SeparateCoAuthors(allow_inplace_modification=inplace),
+            lambda: M.SortBlocksByTypeAndKeyMiddleware(), lambda: M.LatexEncodingMiddleware(allow_inplace_modification=inplace)]
+
+
+def through_middle(v, n, ctx):
+    """Restore law with another shipped middleware between removal and re-adding (seed C10-l: a month middleware overwrote the
+    record of a value it left alone): whenever the middle step leaves a field's value as it is, adding back with reuse must
+    still give the original value."""
+    from bibtexparser.middlewares import AddEnclosingMiddleware, RemoveEnclosingMiddleware
+    inplace = bool(n & 1)
+    out = []
+    keys = ["title", "month", "year", "author", "Month"]
+    lib = build.library([["entry", "article", "k", [[k, v] for k in keys], "raw", 0], ["string", "s", v], ["icomment", "c"]])
+    st, a = run(RemoveEnclosingMiddleware(allow_inplace_modification=inplace), lib)
+    if st == "raise" or not a.entries:
+        return out
+    stripped = {f.key: f.value for f in a.entries[0].fields}
+    sval = a.strings[0].value if a.strings else None
+    mids = _middles(inplace)
+    mid = mids[(n >> 1) % len(mids)]()
+    st, m = run(mid, a)
+    ctx.ran(2)
+    if st == "raise" or not m.entries:
+        ctx.note("middle_step_unusable")
+        return out
+    same = [f.key for f in m.entries[0].fields if f.key in stripped and type(f.value) is type(stripped[f.key]) and f.value == stripped[f.key]]
+    (d, _, ei) = OPTS[(n >> 5) % len(OPTS)]
+    st, b = run(AddEnclosingMiddleware(reuse_previous_enclosing=True, enclose_integers=ei, default_enclosing=d, allow_inplace_modification=inplace), m)
+    ctx.ran()
+    if st == "raise":
+        return [Violation("raised", f"C10:add-raised-after-middle-step:{type(mid).__name__}:{b.split(':')[0]}", dict(value=v, middle=type(mid).__name__, error=b))]
+    ctx.mon("restore_law_through_middle_step", len(same))
+    got = {f.key: f.value for f in b.entries[0].fields} if b.entries else {}
+    bad = [k for k in same if got.get(k) != v.strip()]
+    if bad:
+        out.append(Violation("restore-law", f"C10:restore-law:after-value-preserving-{type(mid).__name__}:{vclass(v)}",
+                             dict(value=v, middle=type(mid).__name__, fields=bad, got={k: got.get(k) for k in bad}, want=v.strip(), opts=[d, True, ei])))
+    if sval is not None and m.strings and m.strings[0].value == sval and b.strings and b.strings[0].value != v.strip():
+        out.append(Violation("restore-law", f"C10:restore-law:string:after-value-preserving-{type(mid).__name__}", dict(value=v, got=b.strings[0].value)))
+    return out
+
+
 def check(case, ctx):
     from bibtexparser.middlewares import AddEnclosingMiddleware, RemoveEnclosingMiddleware
     from bibtexparser.splitter import Splitter
@@ -249,6 +305,10 @@ def check(case, ctx):
                     break
             if out:
                 break
+        if not out and isinstance(v, str):
+            h = sum(map(ord, v)) * 7 + len(v) + ctx.cases
+            for j in range(20 if case.get("sem") else 2):
+                out += through_middle(v, h * 2 + j + 13 * j, ctx)
         # integer rule (fresh value, no metadata): digit strings stay bare iff configured; digit look-alikes
         # (whitespace inside/around, signs, separators) are not integer values and must be enclosed
         if isinstance(v, str) and (case["k"] == "digits" or (v.isascii() and v.isdigit())):
